@@ -7,6 +7,7 @@ package main
 
 import (
 	"fmt"
+	"strings"
 	"go/token"
 	"go/types"
 	"math"
@@ -292,6 +293,23 @@ func (pv *prover) le(a, b lin, facts []Atom, depth int) bool {
 					}
 				}
 			}
+		}
+	}
+	// i = slices.Index*(s, ...): -1 <= i < len(s)
+	if !a.isLen && depth < 6 {
+		if call, ok := a.base.(*ssa.Call); ok {
+			if s0 := slicesIndexOperand(call); s0 != nil {
+				ls := lenOf(s0)
+				ls.off += a.off - 1
+				if pv.le(ls, b, facts, depth+1) {
+					return true
+				}
+			}
+		}
+	}
+	if a.base == nil && !b.isLen && a.off <= b.off-1 {
+		if call, ok := b.base.(*ssa.Call); ok && slicesIndexOperand(call) != nil {
+			return true // -1 <= i
 		}
 	}
 	// r = rand.Intn(n): r + oa <= b if n - 1 + oa <= b
@@ -625,4 +643,16 @@ func valuePreservingIntConv(cv *ssa.Convert) bool {
 		return false
 	}
 	return from.Kind() == to.Kind() || fhi <= tlo
+}
+
+// slicesIndexOperand: call is slices.Index / IndexFunc / BinarySearch-free index lookups of the
+// slices package (any instantiation); returns the slice operand.
+func slicesIndexOperand(call *ssa.Call) ssa.Value {
+	n := calleeName(call.Common())
+	if strings.HasPrefix(n, "slices.Index[") || strings.HasPrefix(n, "slices.IndexFunc[") || n == "slices.Index" || n == "slices.IndexFunc" {
+		if len(call.Common().Args) >= 1 {
+			return call.Common().Args[0]
+		}
+	}
+	return nil
 }
